@@ -619,6 +619,18 @@ func (g *G) MacroProgram() *m.Program {
 	if g.flip("unknown") {
 		main.Body = append(main.Body, m.NText("!"), m.NPrint(&m.E{K: "mcall", S: "nosuch", T: "alias", U: "mm"}))
 	}
+	// the local macro definitions may follow the calls
+	if g.intn("macroslast", 0, 2) == 0 {
+		var defs, others []*m.N
+		for _, n := range main.Body {
+			if n.K == "macro" {
+				defs = append(defs, n)
+			} else {
+				others = append(others, n)
+			}
+		}
+		main.Body = append(others, defs...)
+	}
 	// the calling template may extend a layout: its macro definitions and
 	// imports stay at top level, everything that renders moves into a block
 	if g.intn("extending", 0, 3) == 0 {
